@@ -5,3 +5,6 @@ import BalmProofs.Props.C17
 #print axioms Balm.TSys.Iso.reach
 #print axioms Balm.TSys.Iso.attr
 #print axioms Balm.TSys.isAttr_tsOf
+#print axioms Balm.attr_perm
+#print axioms Balm.attr_flip
+#print axioms Balm.ofExprs_flipExprs
